@@ -39,5 +39,5 @@ func NewResponse(stdr *http.Response) (r *Response, err error)
   flag allocates
   ensures err == nil && r != nil && fresh(r) && r.Response != nil && r.stream == nil && len(r.payload) == 0
   ensures wraps-the-given-response: stdr != nil ==> r.Response == stdr
-  ensures default-is-200: stdr == nil ==> fresh(r.Response) && r.Response.StatusCode == 200
+  ensures default-is-200: stdr == nil ==> fresh(r.Response) && r.Response.StatusCode == 200 && r.Response.Header != nil
 @*/
